@@ -9,56 +9,15 @@
 (* logged post-state, so the rest of the trace is still examined.          *)
 (* Run with -workers 1; POSTCONDITION TraceAccepted writes the verdicts.   *)
 (***************************************************************************)
-EXTENDS Deviations, Json, IOUtils
+EXTENDS TraceCommon, Json, IOUtils
 
 Rec == ndJsonDeserialize(IOEnv.TRACE)
 
 VARIABLES st, l
 
-Range(f) == {f[x] : x \in DOMAIN f}
-
-\* list of <<addr, value>> pairs -> function (the harness never repeats an address)
-MkMem(pairs) ==
-  LET idx == DOMAIN pairs
-      addrs == {pairs[k][1] : k \in idx}
-  IN [a \in addrs |-> pairs[CHOOSE k \in idx : pairs[k][1] = a][2]]
-
 EmptyState == [regs |-> [n \in RegNames |-> 0], flags |-> 0, mem |-> << >>, bg |-> -1, stack |-> << >>]
 
 Verdict(v) == TLCSet(1, Append(TLCGet(1), v))
-
-(***************************************************************************)
-(* Comparison of a logged post-state with an Exec result                   *)
-(***************************************************************************)
-RegDiffs(ev, r) == {n \in RegNames \ r.freeregs : ev.regs[n] # r.regs[n]}
-FlagsMatch(ev, r) == (ev.flags & (65535 - r.undef)) = (r.flags & (65535 - r.undef))
-MemDiffs(s, ev, r) ==
-  LET obs == MkMem(ev.memw)
-      addrs == (DOMAIN obs \cup DOMAIN r.writes) \ r.freemem
-      po(a) == IF a \in DOMAIN obs THEN obs[a] ELSE Rd(s, a)
-      pe(a) == IF a \in DOMAIN r.writes THEN r.writes[a] ELSE Rd(s, a)
-  IN {a \in addrs : po(a) # pe(a)}
-OutMatch(ev, r) == <<ev.out, ev.arg>> \in r.outs
-StackMatch(ev, r) == ev.stack = r.stack
-
-Matches(s, ev, r) ==
-  /\ RegDiffs(ev, r) = {} /\ FlagsMatch(ev, r) /\ MemDiffs(s, ev, r) = {}
-  /\ OutMatch(ev, r) /\ StackMatch(ev, r)
-
-Explain(s, ev, r) ==
-  [regs |-> RegDiffs(ev, r),
-   flags |-> IF FlagsMatch(ev, r) THEN << >> ELSE <<r.flags, r.undef, ev.flags>>,
-   mem |-> MemDiffs(s, ev, r),
-   writes |-> r.writes,
-   out |-> IF OutMatch(ev, r) THEN {} ELSE r.outs,
-   stack |-> IF StackMatch(ev, r) THEN << >> ELSE r.stack,
-   expregs |-> [n \in RegDiffs(ev, r) |-> r.regs[n]]]
-
-\* the first known deviation that explains the event, or "" if none
-ExplainingDev(s, ev) ==
-  LET ds == {d \in KnownDeviations : DevApplies(d, s, ev.ast) /\
-                                     Matches(s, ev, DevExec(d, s, ev.ast, ev.idx))}
-  IN IF ds = {} THEN "" ELSE CHOOSE d \in ds : TRUE
 
 CheckStep(s, ev) ==
   LET r == Exec(s, ev.ast, ev.idx) IN
